@@ -31,6 +31,10 @@ def gen_run(rng, tier):
     yield {"universe": G.U_WITNESS, "steps": [
         {**G.W(1, 0), "op": G.op_q("find_type", "PA")}, {**G.W(3, 0), "op": G.op_q("find_type", "{urn:a}PA")},
         {**G.W(3, 1), "op": G.op_q("find_type", "{urn:a}PA")}]}
+    # the module count shrinks while a class appears
+    yield {"universe": G.U_WITNESS, "steps": [
+        {**G.W(1, 2), "op": G.op_q("find_type", "C")}, {**G.W(2, 1), "op": G.op_q("find_type", "{urn:a}PA")},
+        {**G.W(3, 0), "op": G.op_q("find_types", "{urn:b}PB")}]}
     # eviction while iterating
     yield {"universe": G.U_BAD, "steps": G.fixed_world(G.U_BAD, [G.op_fields(["x"]), G.op_fields(["x"]), G.op_q("find_types", "{urn:a}T")])}
     # 2. bounded-exhaustive op sequences over the hand universes
@@ -303,14 +307,30 @@ def known_finding_for(universe, steps, k, runner):
 
 
 def _ctx_log(universe):
+    """(class, parent_ns) requests of a window of context-level calls.  For
+    build/fetch these are the pairs the *caller* asks for (fetch: also the class
+    it resolves to, with the caller's parent_ns); for the other calls the pairs
+    the call hands to XmlContext.build, observed by a recording subclass."""
     def runner(window):
         realm = L.Realm(universe)
         try:
             ctx = RecCtx.make(realm.pkg)
+            log = []
             for st in window:
                 realm.set_world(st["loaded"], st["mods"])
-                realm.call(ctx, st["op"])
-            return [(realm.cid(c), p) for c, p in ctx.log]
+                op = st["op"]
+                n0 = len(ctx.log)
+                out = realm.call(ctx, op)
+                if op["k"] in ("build", "fetch"):
+                    log.append((op["c"], op["pns"]))
+                    if op["k"] == "fetch":
+                        f = realm.call(realm.context(), op)
+                        if "meta" in f:
+                            log.append((f["meta"]["cls"], op["pns"]))
+                else:
+                    log.extend((realm.cid(c), p) for c, p in ctx.log[n0:])
+                del out
+            return log
         finally:
             realm.close()
     return runner
@@ -475,6 +495,14 @@ def check_rec(a):
         rf = fresh.from_string(doc, RecRoot, ns_map=arg_f)
         if rs != rf:
             return f"call #{i}: result differs"
+        if c["arg"] is not None:
+            # reference: the caller's map keeps its entries and gains the first
+            # binding of every other prefix the document declares
+            want = {p: u for p, u in c["arg"]}
+            for p, u in c["decls"]:
+                want.setdefault(p, u)
+            if arg_s != want:
+                return f"call #{i}: the caller's ns_map after parsing {doc!r} with ns_map={dict(c['arg'])} is {arg_s}, expected {want} (shared parser state {shared.ns_map})"
         if arg_s != arg_f:
             return f"call #{i}: the caller's ns_map is {arg_s} on the shared parser, {arg_f} on a fresh one"
         if c["arg"] is None and shared.ns_map != fresh.ns_map:
